@@ -8,7 +8,8 @@ TRUSTED_BASE = [
     "Go toolchain, go-ipld-prime, go-ipfs-pq, go-peertaskqueue, libp2p: outside the model",
 ]
 
-HOOK_COMMITS = ['a8e40aa verif hooks: let the harness hold the peer process table lock (build tag verif)',
+HOOK_COMMITS = ["ad1ad74 verif hooks: let the harness hold the allocator's lock (build tag verif)",
+                'a8e40aa verif hooks: let the harness hold the peer process table lock (build tag verif)',
                 '95b4529 verif hooks: expose link tracker map sizes (build tag verif)',
                 'e1cc3da verif hooks: expose queued builder block sizes (build tag verif)',
                 'bfc4b1d verif hooks: count non-empty queued builders (build tag verif)']
@@ -18,16 +19,18 @@ NOT_YET = {
 
 PROPS = {
     'C13': dict(
-        driver='alloc', monitors=['MON13'], proof_files=['AllocProofs.v'],
-        level_text="Theorem C13_holds: for all limits, peers and operation scripts (all amounts) the allocator model's history satisfies the executable accounting/limits monitor; C13_limits: invariant on every reachable state. The model is run against the real allocator.Allocator on generated scripts every run and the same monitor is evaluated on the implementation's histories.",
+        drivers=[dict(driver='alloc', monitors=['MON13']), dict(driver='allocconc', cmd='d_allocconc', monitors=['MON13C'])],
+        proof_files=['AllocProofs.v', 'AllocConcProofs.v'], props=['C13', 'C13conc'],
+        level_text="Theorem C13_holds: for all limits, peers and operation scripts (all amounts) the allocator model's history satisfies the executable accounting/limits monitor; C13_limits: invariant on every reachable state. The model is run against the real allocator.Allocator on generated scripts every run and the same monitor is evaluated on the implementation's histories. Concurrent callers: every public method holds the allocator's lock for its whole body, so a group of overlapping calls acts as some permutation of them; C13conc_acceptor_sound — whenever the executable acceptor accepts the observations of a script with groups there is a linearisation whose model run yields exactly them, and its final state satisfies the limits invariant; C13conc_limits — every state reachable through groups (also mid-group) satisfies it. A second driver forces groups of 2-3 calls on the real allocator to overlap (lock held through a verif hook until all callers are parked on it) and evaluates acceptor and monitor MON13C.",
         level_note="Kernel-checked over the Gallina model of allocator.go; tie to the Go code is differential (sampled scripts + exhaustive small scripts in the thorough tier). Heap tie-breaking assumed unobservable; nextAllocIndex assumed not to wrap.",
         trusted=["go-ipfs-pq heap assumed to return a comparator-minimal element; ties are unobservable (comparator classes are treated identically)",
                  "uint64 arithmetic modelled over N: sound because every addition is guarded by fits() (invariant total<=max proved)"],
         assumptions=["nextAllocIndex does not wrap (2^64 waiting allocations)"],
     ),
     'C14': dict(
-        driver='alloc', monitors=['MON14'], proof_files=['AllocProofs.v', 'AllocFifoProofs.v'], props=['C14', 'C14fifo'],
-        level_text="Theorems over the allocator model: exact immediate-grant decision rule in every state (C14_immediate_iff), no-lost-wake-up invariant after every operation of every script (C14_no_lost_wakeup), release-peer fails exactly the waiting allocations in that call (C14_release_peer_fails_waiting). History level: C14_monitor — the executable monitor_C14 (immediate-grant rule, every granted/failed ticket is the head of its peer's waiting queue when it is resolved, no lost wake-up after every op, release-peer fails all waiting tickets in that call) accepts every history the model can produce, for all limits and scripts; C14_monitor_enforces_request_order — any history the monitor accepts (in particular an implementation history) grants each peer's tickets in strictly increasing request order; C14_no_overtake, C14_queues_in_request_order. The same monitor is evaluated on every implementation history.",
+        drivers=[dict(driver='alloc', monitors=['MON14', 'MON14X']), dict(driver='allocconc', cmd='d_allocconc', monitors=['MON14C'])],
+        proof_files=['AllocProofs.v', 'AllocFifoProofs.v', 'AllocOrderProofs.v', 'AllocConcProofs.v'], props=['C14', 'C14fifo', 'C13conc'],
+        level_text="Theorems over the allocator model: exact immediate-grant decision rule in every state (C14_immediate_iff), no-lost-wake-up invariant after every operation of every script (C14_no_lost_wakeup), release-peer fails exactly the waiting allocations in that call (C14_release_peer_fails_waiting). History level: C14_monitor — the executable monitor_C14 (immediate-grant rule, every granted/failed ticket is the head of its peer's waiting queue when it is resolved, no lost wake-up after every op, release-peer fails all waiting tickets in that call) accepts every history the model can produce, for all limits and scripts; C14_monitor_enforces_request_order — any history the monitor accepts (in particular an implementation history) grants each peer's tickets in strictly increasing request order; C14_no_overtake, C14_queues_in_request_order; C14_monitor_x / C14_no_pass_over — the stronger monitor (every grant of a release takes the smallest-ticket eligible waiting head: nothing is granted while an earlier-requested waiting allocation of ANY peer that fits its own peer's limit is left waiting) also accepts every model history. Both monitors are evaluated on every implementation history; a second driver runs groups of overlapping calls (see C13).",
         level_note="Kernel-checked over the Gallina model of allocator.go, including the per-peer FIFO clause at history level. Cross-peer grant order inside one call is not observable through per-ticket channels (outcomes of one call are compared sorted by ticket; the theorem covers that sorting).",
         trusted=["go-ipfs-pq heap assumed to return a comparator-minimal element; ties are unobservable"],
         assumptions=["cross-peer order of grants inside one call is not observable through per-ticket channels and is not compared"],
